@@ -66,6 +66,8 @@ ApplyClauses(s, ln) ==
 RelClauses(s, ln) ==
   CommonClauses(s, ln) \o
   << <<"ValueRel", Returned(ln) => ln.qd = 0>>,
+     \* the driver computed its numpy reference for the operator this specification expects
+     <<"HarnessOpBinding", ln.effop = EffOp(ln.op)>>,
      <<"ReceiverUnchangedRel", (ln.recv_checked /\ ~(ln.inplace /\ ~Returned(ln))) => ln.recvqd = 0>>,
      <<"NOTE:InplaceRejectionDirtyValue", (ln.recv_checked /\ ln.inplace /\ ~Returned(ln)) => ln.recvqd = 0>> >>
 
